@@ -7,11 +7,10 @@ namespace Havoc.C02
 open Havoc
 
 /-- regenerated fact: the Demon's task loop goes on while at least one frame header is left -/
-theorem loop_continues (n : Nat) (h : n ≥ 12) : Gen.Demon.dispatcherContinue n = true := by
-  simp [Gen.Demon.dispatcherContinue]; omega
+theorem loop_continues (n : Nat) (h : n ≥ 12) : Gen.Demon.dispatcherContinue n = true :=
+  Havoc.loop_continues n h
 
-theorem loop_stops : Gen.Demon.dispatcherContinue 0 = false := by
-  simp [Gen.Demon.dispatcherContinue]
+theorem loop_stops : Gen.Demon.dispatcherContinue 0 = false := Havoc.loop_stops
 
 /-- regenerated fact: a frame is read as command, request id, length-prefixed body, and
     the body is decrypted with the session key/IV before the handler runs -/
@@ -59,12 +58,8 @@ theorem xcrypt_length (ks : KeyStream) (bs : Bytes) : (xcrypt ks bs).length = bs
     the issued (command, request id, body) sequence — every batch size, every argument
     list, every keystream. -/
 theorem frame_roundtrip (ks : KeyStream) (j : Job) (js : List Job) (h : ∀ x ∈ j :: js, x.wf) :
-    demonDispatch ks (buildPayload ks (j :: js)) = some ((j :: js).map Job.view) := by
-  unfold demonDispatch
-  have hl := buildPayload_length ks (j :: js)
-  have := demonLoop_jobs ks loop_continues loop_stops js j (buildPayload ks (j :: js)).length []
-    (by simp at hl ⊢; omega) h
-  simpa using this
+    demonDispatch ks (buildPayload ks (j :: js)) = some ((j :: js).map Job.view) :=
+  dispatch_roundtrip ks j js h
 
 /-- a no-job reply is read as "nothing to do" -/
 theorem nojob_roundtrip (ks : KeyStream) : demonDispatch ks (buildPayload ks [noJob]) = some [] := by
